@@ -50,6 +50,8 @@ class Ctx:
         self.params = params
         self.only_case = only_case
         self.deadline = None
+        self.current_case = None      # the case being run (for crash isolation in worker_main)
+        self.resume_after = None      # cases up to and including this one are skipped
 
     def cases(self, total=None):
         """Case indices owned by this shard (or the single replayed case)."""
@@ -58,9 +60,13 @@ class Ctx:
             return
         total = self.params["cases"] if total is None else total
         for i in range(self.shard, total, self.nshards):
+            if self.resume_after is not None and i <= self.resume_after:
+                continue
             if self.deadline is not None and time.monotonic() > self.deadline:
                 return
+            self.current_case = i
             yield i
+        self.current_case = None
 
     def rng(self, case, salt=""):
         text = f"{self.prop}:{self.seed}:{self.tier}:{case}:{salt}"
@@ -161,6 +167,16 @@ class Collector:
                     "case": case, "detail": detail,
                 })
 
+    def crash(self, case, exc):
+        """An exception nobody expected ended a case: the case is inconclusive (never a violation
+        by itself), the other cases of the shard still run."""
+        import traceback
+        self.counts["crashed_cases"] += 1
+        if len(self.inconclusive) < 20:
+            frames = traceback.extract_tb(exc.__traceback__)
+            where = [f"{os.path.relpath(f.filename, '/')}:{f.lineno}" for f in frames[-3:]]
+            self.inconclusive.append(f"case {case.get('case')}: crash {type(exc).__name__}: {exc} at {' <- '.join(reversed(where))}")
+
     def inconclusive_case(self, text):
         if len(self.inconclusive) < 50:
             self.inconclusive.append(text)
@@ -202,7 +218,18 @@ def worker_main(argv):
         ctx.deadline = time.monotonic() + budget
     col = Collector()
     t0 = time.monotonic()
-    module.run_shard(ctx, col)
+    while True:
+        try:
+            module.run_shard(ctx, col)
+            break
+        except Exception as e:
+            # crash isolation: one case that dies with an unexpected exception must not hide the
+            # other cases of the shard; the shard is re-entered behind the crashed case
+            if only_case is not None or ctx.current_case is None:
+                raise
+            col.crash(ctx.case_ref(ctx.current_case), e)
+            ctx.resume_after = ctx.current_case
+            ctx.current_case = None
     out = col.to_json()
     out["wall_s"] = time.monotonic() - t0
     with open(outfile, "w") as f:
@@ -389,6 +416,10 @@ def run_check(modname, tier, seed, replay=None):
     if merged["evaluations"] < floors.get("evaluations", 0):
         floor_fail.append(f"evaluations={merged['evaluations']} < {floors['evaluations']}")
 
+    n_crashed = merged["counts"].get("crashed_cases", 0)
+    if n_crashed:
+        first = next((t for t in merged["inconclusive"] if "crash" in t), "")
+        problems.append(f"{n_crashed} case(s) ended with an unexpected exception, e.g. {first}")
     frac = floors.get("max_inconclusive_frac", 0.05)
     n_inc = merged["counts"].get("inconclusive_cases", 0)
     if replay is None and n_inc > frac * max(1, merged["evaluations"]):
